@@ -142,13 +142,18 @@ impl FaultCtl {
 
 fn jwk_err_for(ctl: &FaultCtl) -> KeyStorageError {
   // A store that loses acknowledgements AND answers "not found" for an entry it holds is not failing but lying: no
-  // caller can cope with that. In an operation with dirty failures injected errors keep to the transient kinds.
+  // caller can cope with that. In an operation with dirty failures injected errors are of every kind but "not found"
+  // (a session that expires between the write and its acknowledgement reports Unauthenticated, an acknowledgement
+  // that cannot be decoded SerializationError, ...).
   if ctl.dirty.get() != 0 {
-    let kind = match ctx::choose(4) {
+    let kind = match ctx::choose(7) {
       0 => KeyStorageErrorKind::RetryableIOFailure,
       1 => KeyStorageErrorKind::Unavailable,
       2 => KeyStorageErrorKind::Unauthenticated,
-      _ => KeyStorageErrorKind::Unspecified,
+      3 => KeyStorageErrorKind::Unspecified,
+      4 => KeyStorageErrorKind::KeyAlgorithmMismatch,
+      5 => KeyStorageErrorKind::UnsupportedKeyType,
+      _ => KeyStorageErrorKind::SerializationError,
     };
     return KeyStorageError::new(kind).with_custom_message("injected by simulator");
   }
@@ -157,11 +162,13 @@ fn jwk_err_for(ctl: &FaultCtl) -> KeyStorageError {
 
 fn kid_err_for(ctl: &FaultCtl) -> KeyIdStorageError {
   if ctl.dirty.get() != 0 {
-    let kind = match ctx::choose(4) {
+    let kind = match ctx::choose(6) {
       0 => KeyIdStorageErrorKind::RetryableIOFailure,
       1 => KeyIdStorageErrorKind::Unavailable,
       2 => KeyIdStorageErrorKind::Unauthenticated,
-      _ => KeyIdStorageErrorKind::Unspecified,
+      3 => KeyIdStorageErrorKind::Unspecified,
+      4 => KeyIdStorageErrorKind::KeyIdAlreadyExists,
+      _ => KeyIdStorageErrorKind::SerializationError,
     };
     return KeyIdStorageError::new(kind).with_custom_message("injected by simulator");
   }
